@@ -510,9 +510,12 @@ func (l *loopState) notifySteps() { //nolint:gocognit
 			if nodeItem.Kind == DAGItemKindOutput {
 				l.logger.Debugf("Output node %s failed", nodeID)
 				// Check to see if there are any remaining output nodes, and if there aren't,
-				// cancel the context.
+				// cancel the context. A failed output node can show up here once for every failed
+				// dependency, so only act the first time: the error channel is drained by the caller
+				// only, and filling it up while holding the lock would block forever.
+				_, stillWaiting := l.waitingOutputs[nodeID]
 				delete(l.waitingOutputs, nodeID)
-				if len(l.waitingOutputs) == 0 && !l.outputDone {
+				if stillWaiting && len(l.waitingOutputs) == 0 && !l.outputDone {
 					l.recentErrors <- &ErrNoMorePossibleOutputs{
 						l.dag,
 					}
